@@ -142,6 +142,41 @@ def run(ctx):
                 bad_fw = bad_fw or (n, s)
             else:
                 bad_ord = bad_ord or (n, s, rec)
+    # converse: an interrupt-style termination of the operation (an exception outside Exception) is never given an operation output
+    bad_int = None
+    n_int = 0
+    for n, s in dx.exits:
+        ek = rm.exit_kind(n)
+        src = str(s.extra.get('exc_src', ''))
+        if ek != 'return' and ek[6:] in base_atoms and src.startswith('user-body:'):
+            n_int += 1
+            if dx.n(s, 'enter:record_output') != 0:
+                bad_int = bad_int or (n, s)
+    # ... including when the executor's own handler swallowed it (the exit is then a return / another exception)
+    def always_raises(stmts):
+        if not stmts:
+            return False
+        s_ = stmts[-1]
+        if isinstance(s_, ast.Raise):
+            return True
+        if isinstance(s_, ast.If):
+            return always_raises(s_.body) and always_raises(s_.orelse)
+        return False
+    rec_name = roles.record_output.name if getattr(roles, 'record_output', None) is not None else None
+    handled_base = [h for h in walk_own(roles.op_executor.node) if isinstance(h, ast.ExceptHandler) and
+                    (h.type is None or (excm.handler_atoms(h.type) & set(base_atoms))) and
+                    (not always_raises(h.body) or any(isinstance(c, ast.Call) and _self_attr(c.func) == rec_name for c in ast.walk(h)))]
+    cc.instance('operation executor: an interrupt-style termination (outside Exception) is not recorded as an outcome (%d exits)' % n_int,
+                roles.op_executor.qualname, bad_int is None and not handled_base and n_int > 0)
+    if bad_int or handled_base:
+        h = handled_base[0] if handled_base else None
+        n, s = bad_int if bad_int else (None, None)
+        res.add(Finding('C18', 'C18.c', 'R-MUSTPASS', roles.op_executor.file, roles.op_executor.qualname,
+                        h.lineno if h is not None else roles.op_executor.node.lineno, norm(h.type) if h is not None and h.type is not None else 'interrupt outcome',
+                        'the operation executor catches an exception class outside Exception (%s) and treats it as the operation\'s outcome: a run '
+                        'cut short by it is saved with an operation output, i.e. as a complete recording' % (
+                            ', '.join(sorted(excm.handler_atoms(h.type) & set(base_atoms))) if h is not None and h.type is not None else 'interrupt'),
+                        witness=dx.path_to(n, s) if n is not None else None))
     cc.instance('operation executor: output recorded on return and on every ordinary exception of the operation', roles.op_executor.qualname, bad_ord is None)
     cc.instance('operation executor: output recorded when the operation raises a framework-typed exception', roles.op_executor.qualname, bad_fw is None)
     if bad_ord:
